@@ -13,7 +13,7 @@ from vmc.engine import guarded
 
 ID = 'C10'
 BASE_ALPHA = space.alphabet('NOT', 'AND', 'GT', 'XOR')
-OTHERS = ('O1', 'O2', 'O3', 'O4', 'O5', 'O6', 'O7', 'O8')
+OTHERS = ('O1', 'O2', 'O3', 'O4', 'O5', 'O6', 'O7', 'O8', 'O9')
 
 
 class Reject(Exception):
@@ -382,8 +382,8 @@ def plan(tier):
 
 def describe(tier):
     return {
-        'rule': 'base circuit of F(n,k,{NOT,AND,GT,XOR}) x output policy x attached circuit (8: NOT, AND, 1-in/2-out with an '
-        'output that is its input, block + dead gate, buffer, GT, two outputs, no inputs) x every call: connect_circuit left '
+        'rule': 'base circuit of F(n,k,{NOT,AND,GT,XOR}) x output policy x attached circuit (9: NOT, AND, 1-in/2-out with an '
+        'output that is its input, block + dead gate, buffer, GT, two outputs, no inputs (constant connectors), labels that already carry a block prefix) x every call: connect_circuit left '
         '(every duplicate-free tuple of attached inputs incl. partial x every tuple of base gates incl. internal/repeated), '
         'right (every duplicate-free tuple of <=3 base inputs x every tuple of attached gates), connect_left/right/inputs, '
         'extend_circuit both directions (default and explicit connector lists incl. explicitly empty ones), add_circuit x naming {no block, block+prefix, block without prefix}; depth2: a '
